@@ -41,7 +41,7 @@ def main():
     patch = os.path.join(wt, "patch.diff")
     demo = os.path.join(wt, "demo.diff")
     # -- 1. confirm in the worktree
-    sh("git checkout -- . && git clean -fdq src", wt)
+    sh("git reset -q && git checkout -- . && git clean -fdq src", wt)
     rc, out = sh(f"git apply {patch}", wt)
     assert rc == 0, out
     rc, out = sh("cargo test --offline 2>&1 | tail -5", wt)
